@@ -419,6 +419,7 @@ func (sn *Node) addAllocationInternal(alloc *Allocation, force bool) bool {
 	// check if this still fits: it might have changed since pre-check
 	res := alloc.GetAllocatedResource()
 	if force || sn.availableResource.FitIn(res) {
+		verifNodeAdd(sn, alloc, force, res)
 		sn.allocations[alloc.GetAllocationKey()] = alloc
 		if foreign {
 			sn.occupiedResource = resources.Add(sn.occupiedResource, alloc.GetAllocatedResource())
